@@ -442,9 +442,37 @@ pub fn cmd_run(id: &str, tier_name: &str) -> ExitCode {
         return ExitCode::from(2);
     }
 
+    // Prefer a violating run that also fails on a thread of its own: code under test that keeps
+    // state in a thread-local makes some runs fail only because of what their worker thread did
+    // before, and such a run would not replay in a fresh process.  If no candidate of the batch
+    // qualifies, gather more candidates (no early stop, bounded), then fall back to the first.
+    let reproduces = |t: &Trace, class: &str| -> bool {
+        let mut scratch = Stats::default();
+        crate::minimise::isolated(meta.prop.execute, t, &mut scratch, false).violation.map(|v| v.class == class).unwrap_or(false)
+    };
+    let mut candidates = batch.violations.clone();
+    if known.is_empty() && !candidates.is_empty() {
+        let pick = |c: &Vec<(u64, Trace, Outcome)>| c.iter().take(400).position(|(_, t, o)| reproduces(t, &o.violation.as_ref().unwrap().class));
+        let mut at = pick(&candidates);
+        if at.is_none() {
+            let mut wide = tier.clone();
+            wide.stop_on_first = false;
+            wide.runs = wide.runs.min(300_000);
+            let more = run_batch(&meta.prop, seed, &wide);
+            at = pick(&more.violations);
+            if at.is_some() {
+                candidates = more.violations;
+            }
+        }
+        if let Some(k) = at {
+            let chosen = candidates.remove(k);
+            candidates.insert(0, chosen);
+        }
+    }
+
     // violations in run-index order; known findings are stepped over, anything else is reported
     let mut known_hits: Vec<String> = Vec::new();
-    for (n, (_run, t, o)) in batch.violations.iter().enumerate() {
+    for (n, (_run, t, o)) in candidates.iter().enumerate() {
         if n >= 200 {
             eprintln!("vsim: more than 200 violating runs all matching known findings; not minimising the rest");
             break;
